@@ -30,7 +30,7 @@ RULE = ('uamiv files (all four NAME variants, 1-3 species with names up to 10 ch
         'encoder and the record walker, kind cread = reference-encoded bytes read by the Memmap reader vs the encoded content; wind: kind wwrite = library writer '
         'bytes vs the Lean encoder and the record walker, kind wread = reference-encoded files of 1-9 steps read by both readers vs the encoded content; landuse (new style with 11 or 26 categories and 0-2 of VAR1/LAI/TOPO, old style with 0-1 fields; rows, columns 1-4): '
         'library writer bytes vs the Lean writer model and an independent record walker, reference-encoded bytes through the reader vs the Lean reader model and the encoded content, files cut short are rejected by both; '
-        'non-trivial = at least two of nspec, nx*ny, nz, nt are > 1 and pairwise different strides')
+        'non-trivial = at least two of nspec, nx*ny, nz, nt are > 1 and pairwise different strides; kind sslice: a reference file read, cut to a window of rows and columns and written again (records of the window, markers included); whole-day and half-day steps on every run; gridded files as a little-endian machine writes them, opened with endian=little; cloud/rain descriptions with leading / trailing blanks')
 ASSUMPTIONS = ['numpy tofile/memmap and float32 <-> bits conversion are trusted (exercised incl. denormals, -0)',
                'covered: the uamiv family, the five slab formats and cloud_rain (layout model, reader by oracle); wind (writer; reference-encoded files through both readers, as in C13), lateral_boundary (layout model, reader and write-back by oracle), landuse (writer and reader models, both styles); bpch: see C18']
 MIN_NONTRIVIAL = {'quick': 30, 'thorough': 300}
